@@ -798,7 +798,8 @@ V(id='c34-result-not-rerounded', prop='C34', file='mpmath/calculus/odes.py',
 V(id='c34-benign-bisect-right', prop='C34', file='mpmath/calculus/odes.py',
   old="from bisect import bisect\n", new="from bisect import bisect_right as bisect\n", expect='silent')
 V(id='c34-benign-rename-and-temp', prop='C34', file='mpmath/calculus/odes.py',
-  edits=[("    workprec = ctx.prec + 40\n", "    wp_frozen = ctx.prec + 45\n"),
+  edits=[("    workprec = max(ctx.prec, tol_prec) + 40\n", "    wp_frozen = max(ctx.prec, tol_prec) + 45\n"),
+         ("        ctx.prec = workprec\n        ser, xb = ode_taylor", "        ctx.prec = wp_frozen\n        ser, xb = ode_taylor"),
          ("            ctx.prec = workprec\n", "            ctx.prec = wp_frozen\n"),
          ("        if return_vector:\n            return [+yk for yk in y]\n        else:\n            return +y[0]",
           "        if return_vector:\n            out = [+yk for yk in y]\n            return out\n        else:\n            return +y[0]")],
@@ -2412,8 +2413,43 @@ V(id='c11-enter-failure-keeps-stack-entry', prop='C11', file='mpmath/ctx_mp.py',
 
 # ---- C34 O-R10 (fix 2f2fe9f) ----
 V(id='c34-no-residual-test', prop='C34', file='mpmath/calculus/odes.py',
-  old="        if res*radius <= (n+1)*tol:\n            break\n        radius /= 2\n", new="        break\n",
+  old="        if res*radius <= (n+1)*tol:\n            break\n", new="        break\n",
   expect='fire:O-R10:ode_taylor')
+
+# ---- C34 O-R12 / O-R13 / O-R14, O-R5 snapshots (third hunt; fixes 3084d25, ae0610f, de71400) ----
+V(id='c34-first-segment-at-caller-precision', prop='C34', file='mpmath/calculus/odes.py',
+  old="    orig = ctx.prec\n    try:\n        ctx.prec = workprec\n        ser, xb = ode_taylor(ctx, F, x0, y0, tol_prec, degree)\n    finally:\n        ctx.prec = orig\n",
+  new="    ser, xb = ode_taylor(ctx, F, x0, y0, tol_prec, degree)\n", expect='fire:O-R12:odefun')
+V(id='c34-first-segment-before-precision-set', prop='C34', file='mpmath/calculus/odes.py',
+  old="        ctx.prec = workprec\n        ser, xb = ode_taylor(ctx, F, x0, y0, tol_prec, degree)\n",
+  new="        ser, xb = ode_taylor(ctx, F, x0, y0, tol_prec, degree)\n        ctx.prec = workprec\n", expect='fire:O-R12:odefun')
+V(id='c34-first-segment-other-precision', prop='C34', file='mpmath/calculus/odes.py',
+  old="        ctx.prec = workprec\n        ser, xb = ode_taylor(ctx, F, x0, y0, tol_prec, degree)\n",
+  new="        ctx.prec = tol_prec\n        ser, xb = ode_taylor(ctx, F, x0, y0, tol_prec, degree)\n", expect='fire:O-R12:odefun')
+V(id='c34-benign-first-segment-with-temp', prop='C34', file='mpmath/calculus/odes.py',
+  old="        ctx.prec = workprec\n        ser, xb = ode_taylor(ctx, F, x0, y0, tol_prec, degree)\n",
+  new="        ctx.prec = workprec\n        first = ode_taylor(ctx, F, x0, y0, tol_prec, degree)\n        ser, xb = first\n", expect='silent')
+V(id='c34-workprec-ignores-tolerance', prop='C34', file='mpmath/calculus/odes.py',
+  old="    workprec = max(ctx.prec, tol_prec) + 40\n", new="    workprec = ctx.prec + 40\n", expect='fire:O-R13:odefun')
+V(id='c34-workprec-min', prop='C34', file='mpmath/calculus/odes.py',
+  old="    workprec = max(ctx.prec, tol_prec) + 40\n", new="    workprec = min(ctx.prec, tol_prec) + 40\n", expect='fire:O-R13:odefun')
+V(id='c34-benign-workprec-sum', prop='C34', file='mpmath/calculus/odes.py',
+  old="    workprec = max(ctx.prec, tol_prec) + 40\n", new="    workprec = ctx.prec + tol_prec + 20\n", expect='silent')
+V(id='c34-halving-absolute-exit-only', prop='C34', file='mpmath/calculus/odes.py',
+  old="        if prev is not None and n > 2 and ctx.ldexp(res, (n+1)//2) > prev:\n            if floor is not None:\n                radius = floor\n                break\n            floor = radius\n        else:\n            floor = None\n",
+  new="", expect='fire:O-R14:ode_taylor')
+V(id='c34-halving-second-exit-still-absolute', prop='C34', file='mpmath/calculus/odes.py',
+  old="        if prev is not None and n > 2 and ctx.ldexp(res, (n+1)//2) > prev:\n            if floor is not None:\n                radius = floor\n                break\n            floor = radius\n        else:\n            floor = None\n",
+  new="        if res <= 4*(n+1)*tol:\n            break\n", expect='fire:O-R14:ode_taylor')
+V(id='c34-benign-halving-single-verdict', prop='C34', file='mpmath/calculus/odes.py',
+  old="            if floor is not None:\n                radius = floor\n                break\n            floor = radius\n        else:\n            floor = None\n",
+  new="            break\n", expect='silent')
+V(id='c34-snapshot-taken-before-fold', prop='C34', file='mpmath/calculus/odes.py',
+  edits=[("    radius = ctx.one\n    for ts in ser:\n", "    radius = ctx.one\n    floor = radius\n    for ts in ser:\n"),
+         ("    prev = floor = None\n", "    prev = None\n")],
+  expect='fire:O-R5:ode_taylor')
+V(id='c34-snapshot-enlarged', prop='C34', file='mpmath/calculus/odes.py',
+  old="            floor = radius\n        else:", new="            floor = 2*radius\n        else:", expect='fire:O-R5:ode_taylor')
 
 # ---- C33 second hunt: D-R1g, D-R6h, D-LU2, D-R9 (fixes 07fa107, 1bf5546, b3ffa72, 5c4565b) ----
 V(id='c33-gamma-table-terms-of-requested-prec', prop='C33', file='mpmath/libmp/gammazeta.py',
